@@ -78,6 +78,25 @@ PROPS = {
                    'Listed under not_decided in the evidence.',
         not_decided=['equivalence of the drive modes eval / compile+run / compile+step*'],
     ),
+    'C16': dict(
+        title='The lexer is total, loses no text, and reads literals as written',
+        verus_units=['lexer', 'lex', 'bitstr'],
+        kani_groups=[],
+        design_ref='DESIGN.md section 5 / C16',
+        technique='Verus contracts on the real lexer (Lex::new, peek_char, take_char, skip_line, last_substr, next, next_nonws) over a character-level '
+                  'model of the source text (text = Seq<char>, positions = byte offsets, every cursor on a character boundary); '
+                  'BitvecBuilder::append_bit/finish (the bit-literal builder) in unit bitstr',
+        level_text='Partial (first half of the property). Proved for EVERY text (any UTF-8, any length): each call of next terminates (every loop has a decreasing '
+                   'measure: the bytes left), the token starts exactly where the previous one ended, both cursors stay on character boundaries inside the '
+                   'text, a token other than end-of-input consumes at least one character and end-of-input is reported only at the end of the text and '
+                   'consumes nothing - so the token loop of every caller terminates and the token texts, concatenated in order, are the input up to the '
+                   'first error; Whitespace / Word / Comment tokens carry exactly the bytes between the two cursors; no slice of the text is ever taken off '
+                   'a character boundary or past the end (no panic). The bit-literal builder denotes exactly the appended bits (unit bitstr).',
+        level_note='Assumed (dependency contracts): str slicing + chars().next() yields the character at a boundary offset, arcstr substr, char::len_utf8 (vstd). '
+                   'NOT decided (second half): the VALUES of literals - integer / real parsing (from_str_radix, str::parse), string escapes and the print/read-back '
+                   'round trip are std calls and fmt code outside the dialect; which characters go into the digit buffer is verified only as far as the cursor moves.',
+        not_decided=['values of integer / real / string literals', 'print / read-back round trip', 'XstrLines'],
+    ),
     'C17': dict(
         title='Every error points at the token that caused it',
         verus_units=['state', 'compile', 'lex', 'build'],
@@ -216,7 +235,7 @@ PROPS = {
     ),
     'C08': dict(
         title='No source text, input or API call sequence can crash the interpreter',
-        verus_units=['bitstr', 'state', 'compile', 'cell', 'arith', 'collections', 'cursor', 'lex', 'build'],
+        verus_units=['bitstr', 'state', 'compile', 'cell', 'arith', 'collections', 'cursor', 'lex', 'build', 'lexer'],
         kani_groups=['state_idx.rs', 'codec.rs'],
         design_ref='DESIGN.md section 5 / C08',
         technique='panic freedom of exactly the functions under contract: Verus checks every arithmetic operation for overflow, every index, unwrap, division, unreachable!/panic! site; Kani runs with overflow/bounds checks',
@@ -232,7 +251,6 @@ PROPS = {
 # properties not claimed: reason goes to MANIFEST.not_applicable
 NOT_APPLICABLE = {
     'C03': 'clone independence is an aliasing property between two objects over later histories; Verus models Rc without identity/sharing and any Kani harness holding a State did not finish (>15 min): no contract within reach can express it',
-    'C16': 'the lexer is str/char/parse code outside the Verus dialect and too heavy for Kani (Tok carries a Cell); printing goes through fmt; the bit-literal builder is covered under C04',
     'C18': 'the round-trip law lives entirely in the external base32/base64/z85 crates; assuming it would make the wrappers verify vacuously; the xeh-owned byte export is a C04 obligation',
 
 
